@@ -11,6 +11,7 @@ import (
 	"net/http"
 	"net/http/httptest"
 	"net/url"
+	"os"
 	"sort"
 	"strconv"
 	"strings"
@@ -45,11 +46,12 @@ const (
 	KFilterT  // querystring.Filter, child in the true branch, no else
 	KFilterE  // querystring.Filter, non-verifier modifier in the true branch, child in the else branch
 	KFilterTE // querystring.Filter, Kids[0] in the true branch, Kids[1] in the else branch
+	KErr      // round 6: an ordinary (non-verifier) modifier that returns an error for the messages that ask for it (see ext.go)
 )
 
 const NumLeafKinds = 7
 
-var KindNames = []string{"status", "header", "method", "url", "query", "failure", "pingback", "group", "filterT", "filterE", "filterTE"}
+var KindNames = []string{"status", "header", "method", "url", "query", "failure", "pingback", "group", "filterT", "filterE", "filterTE", "err"}
 
 // Node is a node of a configuration tree.
 type Node struct {
@@ -62,7 +64,8 @@ type Node struct {
 	Scope int  // "scope" of the JSON message: ScNone (absent), ScReq, ScRes, ScBoth, ScEmpty
 	Agg   bool // fifo.Group: aggregateErrors
 
-	ext bool // root only, set by Number: some node of the tree uses an extension
+	ext  bool // root only, set by Number: some node of the tree uses an extension
+	errs bool // root only, set by Number: the tree holds an err modifier
 }
 
 func Leaf(kind int) *Node       { return &Node{Kind: kind} }
@@ -71,7 +74,7 @@ func FilterT(k *Node) *Node     { return &Node{Kind: KFilterT, Kids: []*Node{k}}
 func FilterE(k *Node) *Node     { return &Node{Kind: KFilterE, Kids: []*Node{k}} }
 func FilterTE(t, e *Node) *Node { return &Node{Kind: KFilterTE, Kids: []*Node{t, e}} }
 func (n *Node) IsLeaf() bool    { return n.Kind < NumLeafKinds }
-func (n *Node) isFilter() bool  { return n.Kind >= KFilterT }
+func (n *Node) isFilter() bool  { return n.Kind >= KFilterT && n.Kind <= KFilterTE }
 func (n *Node) clone() *Node {
 	c := &Node{Kind: n.Kind, Var: n.Var, Scope: n.Scope, Agg: n.Agg}
 	for _, k := range n.Kids {
@@ -88,8 +91,11 @@ func (n *Node) Number() *Node {
 	rec = func(x *Node) {
 		x.ID = id
 		id++
-		if x.Var != 0 || x.Scope != 0 || x.Agg {
+		if x.Var != 0 || x.Scope != 0 || x.Agg || x.Kind == KErr {
 			c.ext = true
+		}
+		if x.Kind == KErr {
+			c.errs = true
 		}
 		for _, k := range x.Kids {
 			rec(k)
@@ -110,7 +116,7 @@ func (n *Node) Size() int {
 
 func (n *Node) String() string {
 	name := KindNames[n.Kind] + n.extSuffix()
-	if n.IsLeaf() {
+	if n.IsLeaf() || n.Kind == KErr {
 		return name
 	}
 	var ks []string
@@ -122,7 +128,7 @@ func (n *Node) String() string {
 
 // JSON renders the martian configuration message of the tree.
 func (n *Node) JSON() string {
-	if n.Var != 0 || n.Scope != 0 || n.Agg {
+	if n.Var != 0 || n.Scope != 0 || n.Agg || n.Kind == KErr {
 		return n.extJSON()
 	}
 	switch n.Kind {
@@ -290,7 +296,18 @@ type Msg struct {
 	// Extensions (see ext.go); the zero values give the original messages.
 	Flip  uint32 // filters with an own response condition (header, cookie): bit i = the response takes the other branch of filter node i than the request
 	Shape uint8  // index into Shapes: concrete attributes that override what Met says (wrong value, several values, ...)
+	Err   uint8  // round 6: ErrReq = the request asks the err modifiers (KErr) to fail, ErrRes = the response does
+	Via   uint8  // round 6, through-the-proxy family only: ViaFaultRT = the upstream round trip fails (the proxy answers 502 itself), ViaConnectFail = a CONNECT whose target cannot be dialled
 }
+
+// Bits of Msg.Err and values of Msg.Via.
+const (
+	ErrReq = 1
+	ErrRes = 2
+
+	ViaFaultRT     = 1
+	ViaConnectFail = 2
+)
 
 func (m Msg) met(kind int) bool { return m.Met&(1<<uint(kind)) != 0 }
 
@@ -319,6 +336,18 @@ func (m Msg) String() string {
 	}
 	if m.Shape != 0 {
 		s += " shape:" + Shapes[m.Shape].Name
+	}
+	if m.Err&ErrReq != 0 {
+		s += " request-fails-err-modifier"
+	}
+	if m.Err&ErrRes != 0 {
+		s += " response-fails-err-modifier"
+	}
+	switch m.Via {
+	case ViaFaultRT:
+		s += " round-trip-fails"
+	case ViaConnectFail:
+		s += " CONNECT-target-unreachable"
 	}
 	return s + "}"
 }
@@ -368,6 +397,8 @@ func Alphabet(t *Node) []Msg {
 		rest := work[1:]
 		push := func(k *Node) []*Node { return append([]*Node{k}, rest...) }
 		switch {
+		case x.Kind == KErr:
+			walk(rest, m, assigned, uniform, api)
 		case x.Kind == KGroup:
 			walk(append(append([]*Node{}, x.Kids...), rest...), m, assigned, uniform, api)
 		case x.isFilter():
@@ -439,6 +470,7 @@ func Reached(t *Node, m Msg) []*Node {
 			} else {
 				rec(x.Kids[1])
 			}
+		case KErr:
 		default:
 			out = append(out, x)
 		}
@@ -449,7 +481,7 @@ func Reached(t *Node, m Msg) []*Node {
 
 // Build constructs the request and the response of the message; id makes its URL unique.
 func (m Msg) Build(id int) (*http.Request, *http.Response) {
-	if m.Flip != 0 || m.Shape != 0 {
+	if m.Flip != 0 || m.Shape != 0 || m.Err != 0 || m.Via != 0 {
 		return m.BuildFor(nil, id)
 	}
 	host := "bad.example"
@@ -530,8 +562,9 @@ type Rec struct {
 
 // Eval lists what message m (taken as a non-API request) makes the verifiers of the tree record.
 func Eval(t *Node, m Msg, id int) []Rec {
-	if t.ext || m.Flip != 0 || m.Shape != 0 || ForceConcrete {
-		return evalX(t, m, id)
+	if t.ext || m.Flip != 0 || m.Shape != 0 || m.Err != 0 || m.Via != 0 || ForceConcrete {
+		recs, _, _ := evalX(t, m, id)
+		return recs
 	}
 	var out []Rec
 	var rec func(x *Node)
@@ -841,6 +874,18 @@ func msgID(msg string) string {
 			}
 		}
 	}
+	// a CONNECT request has no query: its id travels in the first label of the target host (//x<id>.host:port)
+	for i := 0; i+3 < len(msg); i++ {
+		if msg[i] == '/' && msg[i+1] == '/' && msg[i+2] == 'x' {
+			j := i + 3
+			for j < len(msg) && msg[j] >= '0' && msg[j] <= '9' {
+				j++
+			}
+			if j > i+3 && j < len(msg) && msg[j] == '.' {
+				return msg[i+3 : j]
+			}
+		}
+	}
 	return "?"
 }
 
@@ -1117,8 +1162,9 @@ type Conc struct {
 	ReqOnly bool
 	Queries int
 	Reset   bool
-	Heavy   bool // thorough tier only
-	Preempt int  // 0: every interleaving is explored; k > 0: every schedule with at most k preemptions
+	Heavy   bool   // thorough tier only
+	Preempt int    // 0: every interleaving is explored; k > 0: every schedule with at most k preemptions
+	Family  string // round 6: "" or "errmod" (prefix of the signature of an execution that does not terminate)
 }
 
 func (c Conc) String() string {
@@ -1147,6 +1193,9 @@ func ConcScenarios(tier string) []Conc {
 		c.Tree = c.Tree.Number()
 		if c.Heavy && tier != "thorough" {
 			return
+		}
+		if c.Family != "" && os.Getenv("C13_SKIP_R6") != "" {
+			return // self-validation aid: the check as it was before round 6
 		}
 		out = append(out, c)
 	}
@@ -1253,5 +1302,31 @@ func ConcScenarios(tier string) []Conc {
 	add(Conc{Name: "filterE(status)/1x1+2query", Tree: FilterE(Leaf(KStatus)), Threads: one, Queries: 2, Preempt: pb})
 	add(Conc{Name: "group(header,failure)/prime+1x1req+2query+reset", Tree: Group(Leaf(KHeader), Leaf(KFailure)), Prime: []Msg{unmet}, Threads: one, ReqOnly: true, Queries: 2, Reset: true, Preempt: 2, Heavy: true})
 	add(Conc{Name: "filterTE(group(failure),header)/2x1+2query", Tree: fgh, Threads: [][]Msg{{fghTrue}, {unmet}}, Queries: 2, Preempt: 2, Heavy: true})
+
+	// ---- round 6: a query / a reset arrives while a request is inside a group that also holds an ordinary modifier
+	// which fails for that request (an err modifier, KErr): the group decides what to do with the error (stop, or
+	// aggregate and go on) while the query is waiting for the group. Every query and reset must return (an execution
+	// that cannot terminate is reported), the query must hold what was recorded before it began, and the verifiers
+	// behind the failing modifier are evaluated only in an aggregating group.
+	fails := Msg{Err: ErrReq}
+	failsBoth := Msg{Err: ErrReq | ErrRes}
+	agg := func(kids ...*Node) *Node { g := Group(kids...); g.Agg = true; return g }
+	for _, v := range []struct {
+		name string
+		tree *Node
+	}{
+		{"group(header,err)", Group(Leaf(KHeader), Err(ScNone))},
+		{"group(header,err)+agg", agg(Leaf(KHeader), Err(ScNone))},
+		{"group(err,failure)", Group(Err(ScNone), Leaf(KFailure))},
+		{"group(err,failure)+agg", agg(Err(ScNone), Leaf(KFailure))},
+	} {
+		add(Conc{Name: v.name + "/1x1req+query", Tree: v.tree, Threads: [][]Msg{{fails}}, ReqOnly: true, Queries: 1, Family: "errmod"})
+		add(Conc{Name: v.name + "/prime+1x1req+reset", Tree: v.tree, Prime: []Msg{unmet}, Threads: [][]Msg{{fails}}, ReqOnly: true, Reset: true, Family: "errmod"})
+	}
+	add(Conc{Name: "group(status,err,header)+agg/1x1+query", Tree: agg(Leaf(KStatus), Err(ScNone), Leaf(KHeader)), Threads: [][]Msg{{failsBoth}}, Queries: 1, Preempt: pb, Family: "errmod"})
+	add(Conc{Name: "group(group(header,err),failure)/2x1req+query", Tree: Group(Group(Leaf(KHeader), Err(ScNone)), Leaf(KFailure)), Threads: [][]Msg{{fails}, {unmet}}, ReqOnly: true, Queries: 1, Preempt: 2, Family: "errmod"})
+	add(Conc{Name: "filterE(group(failure,err))/prime+1x1req+query+reset", Tree: FilterE(Group(Leaf(KFailure), Err(ScNone))), Prime: []Msg{unmet}, Threads: [][]Msg{{fails}}, ReqOnly: true, Queries: 1, Reset: true, Preempt: 2, Family: "errmod"})
+	add(Conc{Name: "group(header,err,failure)+agg/2x1req+query+reset", Tree: agg(Leaf(KHeader), Err(ScNone), Leaf(KFailure)), Prime: []Msg{unmet}, Threads: [][]Msg{{fails}, {fails}}, ReqOnly: true, Queries: 1, Reset: true, Preempt: 2, Heavy: true, Family: "errmod"})
+	add(Conc{Name: "group(header,err)/1x2+query", Tree: Group(Leaf(KHeader), Err(ScNone)), Threads: [][]Msg{{failsBoth, fails}}, Queries: 1, Preempt: 3, Heavy: true, Family: "errmod"})
 	return out
 }
